@@ -410,6 +410,23 @@ def real_outcome(case):
         return "internal:" + type(exc).__name__
 
 
+def logic_effect(case):
+    """observe_at 2: does `Gateway(protocol_version=v).logic(line)` have any effect?  Returns
+    'reply' / 'state' / 'none' / 'raised:<Exc>' for an L-case on a fresh gateway."""
+    import mysensors.mysensors as my
+    _, ver, n, c, t, a, s, p = case
+    try:
+        gw = my.SerialGateway("/dev/ttyFAKE", protocol_version=ver)      # no I/O before start()
+        seen = []
+        gw.event_callback = seen.append
+        reply = gw.logic(f"{n};{c};{t};{a};{s};{p}\n")
+        if reply is not None:
+            return "reply"
+        return "state" if (gw.sensors or seen or len(gw.tasks.queue)) else "none"
+    except Exception as exc:  # noqa: BLE001
+        return "raised:" + type(exc).__name__
+
+
 def _work(chunk):
     import logging
     logging.disable(logging.CRITICAL)
@@ -460,7 +477,7 @@ def judge(spec, case, real):
     else:
         kind = "accepts-invalid" if real == "ok" else "rejects-valid"
     if case[0] == "C":
-        key = {"kind": kind, "where": "child-schema", "version": case[1], "ptype": case[2]}
+        key = {"kind": kind, "where": "child-schema"}
     else:
         rule = spec_rule(spec, case[1], case[4], case[6])
         key = {"kind": kind, "where": "message", "rule": rule or "undefined"}
@@ -521,6 +538,17 @@ def run(tier, seed, driver):
         f = judge(spec, c, r)
         if f:
             res.oracle_failures.append(f)
+    # observe_at 2: a rejected line has no effect on a gateway of that version
+    n_eff = 600 if tier == "quick" else 12000
+    idx = rng.sample(range(len(hdr)), min(n_eff, len(hdr)))
+    for i in idx:
+        eff = logic_effect(hdr[i])
+        res.evaluations += 1
+        res.count(f"logic:{real[i]}:{eff.split(':')[0]}")
+        if real[i] == "invalid" and eff != "none":
+            res.oracle_failures.append({"key": {"kind": "rejected-line-has-effect", "effect": eff},
+                                        "what": f"validate rejects {hdr[i]!r} but logic() has effect {eff}",
+                                        "replay": {"case": case_json(hdr[i]), "logic": True}})
     for i in (0, len(hdr) - 1, len(hdr) + 5, len(hdr) + len(corp) // 2, len(cases) - 3):
         res.sample({"case": case_json(cases[i])[:8], "impl": real[i], "reference": oracle_verdict(spec, cases[i])})
     return res
@@ -541,5 +569,10 @@ def replay(payload):
     except Exception as exc:  # noqa: BLE001
         print("model: driver unavailable:", exc)
     f = judge(spec, case, real)
+    if r.get("logic") and case[0] == "L":
+        eff = logic_effect(case)
+        print("logic effect:", eff)
+        if real == "invalid" and eff != "none":
+            f = f or {"what": f"rejected line has effect {eff}"}
     print("oracle:", "FAIL " + f["what"] if f else "pass")
     return 1 if f else 0
